@@ -165,6 +165,59 @@ class Translator:
         self.failed_methods = set()   # (class, method) left out
         self.failed_consts = set()    # (module, constant) left out
         self.skip = set(config.get('_skip', ()))   # 'Module.fn' excluded by the caller (its Lean text did not compile)
+        self.auto_helpers = []
+        self.add_helpers()
+
+    def add_helpers(self):
+        """module-level functions that a translated function calls but that are not translation targets themselves
+        (a helper extracted from a target by a refactoring, or added by a change) become targets too, transitively:
+        the model then follows the call instead of giving up on the caller."""
+        todo = [(modname, f) for modname, m in self.config['modules'].items() for f in m.get('functions', [])]
+        seen = set(todo)
+        while todo:
+            modname, fname = todo.pop()
+            mod = self.modules[modname]
+            fn = mod.funcs.get(fname)
+            if fn is None:
+                continue
+            for node in ast.walk(fn):
+                if isinstance(node, ast.Call) and isinstance(node.func, ast.Name):
+                    if node.func.id in {a.arg for a in fn.args.args}:
+                        continue
+                    g = self.resolve_global(mod, node.func.id)
+                    if g and g[0] == 'func' and g[2] != 'angular_typecheck':
+                        gm, gname = g[1], g[2]
+                        key = (gm.modname, gname)
+                        if key in seen:
+                            continue
+                        seen.add(key)
+                        flist = self.config['modules'][gm.modname].setdefault('functions', [])
+                        if gname not in flist:
+                            flist.append(gname)
+                            self.auto_helpers.append(f'{gm.leanname}.{gname}')
+                            self.infer_helper_param_kinds(mod, fn, node, gm, gname)
+                        todo.append(key)
+
+    def infer_helper_param_kinds(self, mod, caller, call, gm, gname):
+        """a helper's tuple-valued parameters: an argument that is a local name bound to the result of a function returning a
+        tuple (e.g. `a = alpha_coeff(ellipsoid)`) gives the parameter that tuple kind (other parameters: by name or number)"""
+        callee = gm.funcs[gname]
+        params = [a.arg for a in callee.args.args]
+        for i, arg in enumerate(call.args[:len(params)]):
+            if not isinstance(arg, ast.Name):
+                continue
+            for st in ast.walk(caller):
+                if isinstance(st, ast.Assign) and len(st.targets) == 1 and isinstance(st.targets[0], ast.Name) \
+                        and st.targets[0].id == arg.id and isinstance(st.value, ast.Call) and isinstance(st.value.func, ast.Name):
+                    g = self.resolve_global(mod, st.value.func.id)
+                    if g and g[0] == 'func':
+                        try:
+                            rk = self.ret_kind(g[1], g[2])
+                        except TranslateError:
+                            continue
+                        if isinstance(rk, tuple) and rk[0] == 'tuple' and len(rk) == 2:
+                            self.param_kinds.setdefault(f'{gm.leanname}.{gname}.{params[i]}', f'tuple{rk[1]}')
+                    break
 
     # ------------------------------------------------------------------ helpers
     def err(self, mod, node, msg):
